@@ -95,6 +95,8 @@ def _inline_sync(caller, bi, callee):
     lmap = lambda l: base + l
     bmap = lambda b: boff + b
     new_blocks = _remap(callee['blocks'], lmap, bmap)
+    new_locals = copy.deepcopy(callee['locals'])
+    _subst_const_generic(callee, t, new_blocks, new_locals)
     target = t.get('target')
     dest = t['dest']
     for nb in new_blocks:
@@ -105,7 +107,7 @@ def _inline_sync(caller, bi, callee):
             nb['term'] = {'k': 'goto', 'target': target, 'sp': nt.get('sp'), 'ex': nt.get('ex', [])} if target is not None else {'k': 'unreachable', 'sp': nt.get('sp'), 'ex': []}
         elif nt['k'] == 'tailcall':
             raise _NoInline('tailcall')
-    caller['locals'].extend(copy.deepcopy(callee['locals']))
+    caller['locals'].extend(new_locals)
     for d in callee.get('debug', []):
         nd = dict(d)
         nd['place'] = _remap(d['place'], lmap, bmap)
@@ -115,6 +117,48 @@ def _inline_sync(caller, bi, callee):
         blocks[bi]['stmts'].append(_assign(base + 1 + i, callee['locals'][1 + i]['ty'], copy.deepcopy(a), t.get('sp')))
     blocks[bi]['term'] = {'k': 'goto', 'target': boff, 'sp': t.get('sp'), 'ex': t.get('ex', [])}
     blocks.extend(new_blocks)
+
+
+def _subst_const_generic(callee, call_term, new_blocks, new_locals):
+    """a helper with ONE const generic parameter called as `f::<2048>(..)`: the parameter becomes that number in the copy"""
+    import re as _re
+    names = set()
+
+    def find(x):
+        if isinstance(x, dict):
+            if x.get('k') == 'const' and 'int' not in x and 'def' not in x and 'fn' not in x and isinstance(x.get('text'), str) and _re.fullmatch(r'[A-Z][A-Z0-9_]*', x['text']):
+                names.add(x['text'])
+            for v in x.values():
+                find(v)
+        elif isinstance(x, list):
+            for v in x:
+                find(v)
+    find(callee['blocks'])
+    full = ((call_term.get('func') or {}).get('fn') or {}).get('full', '')
+    m = _re.search(r'::<([^<>]*)>$', full)
+    if len(names) != 1 or not m:
+        return
+    ints = [a.strip() for a in m.group(1).split(',') if _re.fullmatch(r'\s*\d+(_usize)?\s*', a)]
+    if len(ints) != 1:
+        return
+    name = names.pop()
+    val = int(ints[0].replace('_usize', ''))
+    rx = _re.compile(r'(?<![A-Za-z0-9_])%s(?![A-Za-z0-9_])' % _re.escape(name))
+
+    def sub(x):
+        if isinstance(x, dict):
+            if x.get('k') == 'const' and x.get('text') == name and 'int' not in x:
+                x['int'] = val
+            for k, v in list(x.items()):
+                if isinstance(v, str) and k in ('ty', 'len', 'n') and name in v:
+                    x[k] = rx.sub(str(val), v)
+                else:
+                    sub(v)
+        elif isinstance(x, list):
+            for v in x:
+                sub(v)
+    sub(new_blocks)
+    sub(new_locals)
 
 
 def _has_marker(x, m='d:Await'):
